@@ -238,7 +238,7 @@ def mergeBody (ext : Ext) (set' : AggregateSet) (s : AggregateSet) (sc : selectC
       LoopStep.next (AggregateSet.setFloat ext (AggregateSet.setString ext s storage (GoIndex.idxOk set'.SValues storage).1)
         storage (GoIndex.idx set'.FValues storage))
     else LoopStep.next s
-  else LoopStep.ret (s, (some (gs "Unknown aggregation method '%v'")))
+  else LoopStep.ret (s, (some (b!"Unknown aggregation method '%v'")))
 
 /-- the translated `Merge` is the sample addition followed by the loop over `mergeBody` -/
 theorem Merge_eq (ext : Ext) (s : AggregateSet) (query : Gen.Mapr.Query) (set' : AggregateSet) :
